@@ -2038,6 +2038,12 @@ func (u *vc18U) block(t *testing.T, out *vOut, o vc18Opts, prevBlock [][]transac
 			default:
 				loopAt = r.Intn(len(stxs))
 				id := stxs[loopAt].ID()
+				for j := range stxs { // a duplicated member: the lookup panics at its FIRST occurrence
+					if stxs[j].ID() == id {
+						loopAt = j
+						break
+					}
+				}
 				l.panicTxid, l.panicFired = &id, false
 			}
 		}
